@@ -106,7 +106,55 @@ def slot_hits(slots, body, places):
     return hits
 
 
+def waker_helpers(prog):
+    """functions that wake a waker reachable from one of their parameters: {body id: set(param index)} (fixpoint)"""
+    helpers = {}
+    def params_of(b, op):
+        out = set()
+        for pl in deep_places(b, op, 6):
+            if 1 <= pl[0] <= b.argc:
+                out.add(pl[0])
+            for o in b.trace_local(pl[0]):
+                if o[0] == "arg":
+                    out.add(o[1])
+        return out
+    bodies = [b for b in prog.bodies.values() if b.crate not in SKIP_CRATES and b.kind in ("fn", "assoc_fn", "closure")]
+    for b in bodies:
+        for i, t in b.calls():
+            if re.search(r"task::wake::Waker::(wake|wake_by_ref)$", callee(t)) and t["args"]:
+                ps = params_of(b, t["args"][0])
+                if ps:
+                    helpers.setdefault(b.id, set()).update(ps)
+    changed = True
+    rounds = 0
+    while changed and rounds < 4:
+        changed = False
+        rounds += 1
+        for b in bodies:
+            for i, t in b.calls():
+                cid = t["f"].get("def")
+                if cid in helpers:
+                    for k in helpers[cid]:
+                        if k - 1 < len(t["args"]):
+                            ps = params_of(b, t["args"][k - 1])
+                            if ps and not ps <= helpers.get(b.id, set()):
+                                helpers.setdefault(b.id, set()).update(ps)
+                                changed = True
+    return helpers
+
+
 def infer_sites(prog, slots):
+    helpers = waker_helpers(prog)
+    for b in prog.bodies.values():
+        if b.crate in SKIP_CRATES:
+            continue
+        for i, t in b.calls():
+            cid = t["f"].get("def")
+            if cid in helpers:
+                for k in helpers[cid]:
+                    if k - 1 < len(t["args"]):
+                        for s in slot_hits(slots, b, deep_places(b, t["args"][k - 1])):
+                            slots[s]["wakes"].add(b.short)
     for b in prog.bodies.values():
         if b.crate in SKIP_CRATES:
             continue
